@@ -65,14 +65,16 @@ def main():
     print(json.dumps(result))
     if not confirmed:
         return 1
-    # run my checks against it
-    rc, o = sh("git -C /repo status --porcelain")
-    assert o.strip() == "", "/repo is not clean: " + o
-    rc, o = sh("git -C /repo apply %s" % patch)
-    assert rc == 0, o
+    # run my checks against it (or leave that to tools/seedpar.py, which works on isolated copies)
+    store_only = "--store-only" in sys.argv
     det = {}
+    if not store_only:
+        rc, o = sh("git -C /repo status --porcelain")
+        assert o.strip() == "", "/repo is not clean: " + o
+        rc, o = sh("git -C /repo apply %s" % patch)
+        assert rc == 0, o
     try:
-        for c in checks:
+        for c in ([] if store_only else checks):
             t0 = time.time()
             rc, o = sh("python3 tools/check.py %s --tier quick" % c, cwd=V, timeout=3600)
             lines = [l for l in o.splitlines() if l.startswith("VIOLATION") or l.startswith("KNOWN-FINDING")]
@@ -87,7 +89,8 @@ def main():
                       "replay_case": ((rep or {}).get("case") or "")[:300]}
             print(c, "exit", rc, lines[:2], det[c]["replay_required"])
     finally:
-        sh("git -C /repo checkout -- . && git -C /repo clean -fdq")
+        if not store_only:
+            sh("git -C /repo checkout -- . && git -C /repo clean -fdq")
     # store
     dest = os.path.join(V, "seeded", "%s-%s" % (pid, store_as))
     shutil.rmtree(dest, ignore_errors=True)
